@@ -230,3 +230,55 @@ Definition observe (cache : bool) (ops : list op) : list Z :=
   let '(gens, fin) := observe_gens ops (sys0 cache) in
   gens ++ (-2) :: enc_table (table_of_seen (r fin)) ++ (-3) :: enc_table (peer fin)
        ++ (-4) :: enc_table (intended fin) ++ (-5) :: [if pending (r fin) then 1 else 0].
+
+(* ---------------------------------------------------------------- watchdogs
+   OutgoingRIB._watchdog[name] = {'+': {index: route}, '-': {index: route}}.  Every watchdog operation
+   is a sequence of ordinary add_to_rib / del_from_rib calls chosen by that table, so a history with
+   watchdog operations is expanded to a history of base operations. *)
+Record wdog := { plus : amap Z route; minus : amap Z route }.
+Definition wstate := amap Z wdog.
+
+Inductive wop :=
+| Base (o : op)
+| WAdd (x : route) (name : Z) (withdrawn : bool)   (* add_to_rib_watchdog of a route carrying `watchdog name [withdraw]` *)
+| WAnnounce (name : Z)                             (* announce_watchdog *)
+| WWithdraw (name : Z).                            (* withdraw_watchdog *)
+
+Definition wget (name : Z) (w : wstate) : wdog :=
+  match aget Z.eqb name w with Some d => d | None => {| plus := []; minus := [] |} end.
+
+Definition expand (w : wstate) (o : wop) : list op * wstate :=
+  match o with
+  | Base b => ([b], w)
+  | WAdd x name true =>
+      let d := wget name w in
+      ([], aset Z.eqb name {| plus := plus d; minus := aset Z.eqb (ridx x) x (minus d) |} w)
+  | WAdd x name false =>
+      let d := wget name w in
+      ([Ann x], aset Z.eqb name {| plus := aset Z.eqb (ridx x) x (plus d); minus := minus d |} w)
+  | WAnnounce name =>
+      match aget Z.eqb name w with
+      | None => ([], w)
+      | Some d =>
+        (map Ann (avalues (minus d)),
+         aset Z.eqb name {| plus := fold_left (fun p x => aset Z.eqb (ridx x) x p) (avalues (minus d)) (plus d);
+                            minus := [] |} w)
+      end
+  | WWithdraw name =>
+      match aget Z.eqb name w with
+      | None => ([], w)
+      | Some d =>
+        (map Wd (avalues (plus d)),
+         aset Z.eqb name {| plus := [];
+                            minus := fold_left (fun p x => aset Z.eqb (ridx x) x p) (avalues (plus d)) (minus d) |} w)
+      end
+  end.
+
+Fixpoint expand_all (w : wstate) (ops : list wop) : list op :=
+  match ops with
+  | [] => []
+  | o :: rest => let '(l, w') := expand w o in l ++ expand_all w' rest
+  end.
+
+Definition wrun (ops : list wop) : sys := run (expand_all [] ops) (sys0 true).
+Definition wobserve (cache : bool) (ops : list wop) : list Z := observe cache (expand_all [] ops).
